@@ -20,13 +20,13 @@ TOL = 1e-9
 def generate(streams, tier):
     big = tier == "thorough"
     r = streams.s("kind")
-    kind = weighted(r, [("bn", 7), ("mn", 3)])
+    kind = weighted(r, [("bn", 6), ("mn", 4)])
     if kind == "bn":
         world = W.gen_bn(streams, max_n=7 if big else 6, max_joint=16384 if big else 2048, connected=r.random() < 0.6)
         config = W.gen_bn_config(streams, world)
         ref = RefJoint.from_bn(world)
     else:
-        world = W.gen_mn(streams, max_n=6, min_n=1, max_joint=2048, connected=True, dup_rate=r.choice([0.0, 0.0, 0.4]), scale_rate=0.2, hub_rate=0.15)
+        world = W.gen_mn(streams, max_n=8, min_n=1, max_joint=2048, connected=True, dup_rate=r.choice([0.0, 0.0, 0.4]), scale_rate=0.2, hub_rate=0.15, ring_rate=0.5, coupling="strong")
         config = {"factor_order": shuffled(streams.s("insertion"), range(len(world["factors"]))), "edge_order": shuffled(streams.s("insertion"), world["edges"])}
         ref = RefJoint.from_factors(world["card"], world["factors"])
     rw = streams.s("workload")
@@ -34,7 +34,7 @@ def generate(streams, tier):
     connected = W.is_connected_bn(world) if kind == "bn" else True
     ops = []
     for _ in range(rw.randint(2, 7)):
-        k = weighted(rw, [("ve_map", 6), ("bp_map", 3 if (kind == "bn" and connected) else 0), ("predict", 2 if kind == "bn" and world["n"] >= 2 else 0)])
+        k = weighted(rw, [("ve_map", 6), ("bp_map", 3 if connected else 0), ("predict", 2 if kind == "bn" and world["n"] >= 2 else 0)])
         if k == "predict":
             n = world["n"]
             cols = rw.sample(range(n), rw.randint(1, n - 1))
